@@ -109,6 +109,47 @@ def fn_results(res):
     return out
 
 
+def check_c18(a, seed, t0):
+    """C18 is decided by Kani alone (floating point; Verus has no f64): loop-free harness over the whole
+    finite domain of the default-placement table."""
+    import kani_c18
+    pid = 'C18'
+    try:
+        r = kani_c18.run()
+    except Exception as e:
+        print('UNDECIDED property=C18 reason=kani run failed: %r' % e)
+        return 2
+    m = re.search(r'(\d+) of (\d+) failed', r.get('summary') or '')
+    n_fail, n_all = (int(m.group(1)), int(m.group(2))) if m else (0, 0)
+    rc = 0
+    if not r['ok'] and not r['failed_checks']:
+        print('UNDECIDED property=C18 reason=kani did not finish: %s' % (r['tail'][-300:].replace('\n', ' | ')))
+        rc = 2
+    elif not r['ok']:
+        os.makedirs(os.path.join(VERIF, 'replays'), exist_ok=True)
+        import hashlib
+        path = os.path.join(VERIF, 'replays', 'C18-%s.json' % hashlib.sha1(''.join(r['failed_checks'] + r['replay']).encode()).hexdigest()[:12])
+        json.dump({'property': pid, 'failed_obligations': r['failed_checks'], 'input': r['replay'], 'kani_cmd': r['cmd'], 'kani_output_tail': r['tail']}, open(path, 'w'), indent=1)
+        for fc in r['failed_checks']:
+            print('FAILED-OBLIGATION property=C18 kani::c18_default_frame_table :: %s' % fc)
+        print('VIOLATION property=C18 replay=%s%s' % (path, '' if r['replay'] else ' no-failing-input-found'))
+        rc = 1
+    ev = {'property_id': pid, 'tier': a.tier if a.tier in ('quick', 'thorough') else 'quick', 'seed': seed, 'level': 'proof',
+          'coverage': {'obligations': max(n_all, 1), 'discharged': (n_all - n_fail) if rc != 2 else 0, 'checker_cmd': r['cmd'] + '  (in a scratch copy of /repo with kani/c18_harness.rs appended to src/convert/svg.rs)',
+                       'trusted_base': ['Kani 0.68 / CBMC 6.11 (IEEE-754 f64 semantics incl. round())', 'the harness module is appended text; no line of the repository is edited'],
+                       'explanation': 'loop-free harness over v in 0..40 x 3 shapes with kani::any(): complete for the finite domain, not a bounded stand-in. Clauses about explicit size/gap/position overrides and the centring arithmetic inside SvgBuilder::image() are NOT covered (string-building function).',
+                       'samples': ['c18_default_frame_table: odd whole frame >= 5; frame < 0.4 n; (n - frame)/2 >= 8; n - frame even; 1 <= image <= frame, whole; frame monotone in version'],
+                       'exhaustive': True, 'functions_under_contract': ['convert::svg::SvgBuilder::image_placement']},
+          'assumptions': ['only the default-placement table (image_placement) is decided; SvgBuilder::image() is out of reach'],
+          'wall_s': round(time.time() - t0, 2), 'violations': 1 if rc == 1 else 0}
+    evdir = os.environ.get('VERIF_EVIDENCE_DIR') or os.path.join(VERIF, 'evidence')
+    os.makedirs(evdir, exist_ok=True)
+    json.dump(ev, open(os.path.join(evdir, pid + '.json'), 'w'), indent=1)
+    if rc == 0:
+        print('OK property=C18 kani checks=%d failed=0' % n_all)
+    return rc
+
+
 def main():
     ap = argparse.ArgumentParser()
     ap.add_argument('prop')
@@ -125,6 +166,8 @@ def main():
     if P is None:
         print('unknown or unclaimed property %s' % pid)
         return 2
+    if pid == 'C18':
+        return check_c18(a, seed, t0)
     try:
         V = verify_tree()
     except vrun.Undecided as e:
